@@ -164,6 +164,15 @@ def r03_6(ctx):
             fi, outs = r.run("promotion_cast", lambda: [r.pure("x", vt=vt_case("tx", sign, IntervalSym("W", lo, hi)))], args_list=True)
             obs = {clean(outcome_text(o)) if o.kind == "raise" else clean(lab(o.value)) for o in outs}
             ctx.check(f"promotion_cast[{'s' if sign else 'u'},{name}]", obs == {exp}, exp, " | ".join(sorted(obs)), fn_where(idx, fi))
+    # ... for every kind of operand and every flag combination (a narrowed truth value is a Ternary, a temporary a LocalVar ...)
+    classes = sorted(c for c in set(idx.subclasses("Pure")) | set(idx.subclasses("Hybrid")) if c in idx.classes)
+    ctx.need(len(classes) >= 15, f"value classes: only {len(classes)} found")
+    for cname in classes:
+        for groups in (("PURE",), ("PURE", "HYBRID_LVAR"), ("PURE", "CONST")):
+            r = Runner(idx, keep_real=("promotion_cast",), sym_compare=interval_compare())
+            fi, outs = r.run("promotion_cast", lambda: [r.pure("x", vt=vt_case("tx", False, 8, groups), cls=cname)], args_list=True)
+            obs = {clean(outcome_text(o)) if o.kind == "raise" else clean(lab(o.value)) for o in outs}
+            ctx.check(f"promotion_cast of a {cname} typed (u,8) with flags {'|'.join(groups)}", obs == {"Conv((s,32),x)"}, "Conv((s,32),x)", " | ".join(sorted(obs)), fn_where(idx, fi), nontrivial=(groups == ("PURE",)))
 
 
 # ------------------------------------------------------------------------------------------------------------------
@@ -250,6 +259,16 @@ def r03_3(ctx):
                 shape = s
             ctx.check(f"assignment_expr[{op}] result conversion", shape in ("converted to type(dest)", "node typed by dest (a=items[0])"),
                       "result has the destination type", shape, fn_where(idx, fi))
+            # the right operand takes part in the operation converted: to the target's type, or both to their common type
+            # (shift amounts are only promoted)
+            nodes = [e[2] for e in o.events if e[0] == "node" and e[1] in ("ArithmeticOp", "BitOp")]
+            if nodes:
+                a_, b_ = lab(ctor(nodes[-1], "a")), lab(ctor(nodes[-1], "b"))
+                if op in ("<<=", ">>="):
+                    okb = b_ in ("Promo(items[2])", "items[2]")
+                else:
+                    okb = b_ in ("Conv(type(items[0]),items[2])", "Promo(Conv(type(items[0]),items[2]))") or (a_.startswith("Common(") and b_.startswith("Common(") and a_[:-2] == b_[:-2])
+                ctx.check(f"assignment_expr[{op}] right operand conversion", okb, "source converted to the target's type (or both operands to their common type)", f"a={a_}, b={b_}", fn_where(idx, fi))
 
     # --- chained assignment a = b = e : the outer source is the (converted) value the inner target holds afterwards.
     #     The inner assignment is sequenced first (R05.6): a variable target is read back; a register target cannot be
@@ -330,6 +349,18 @@ def r03_3(ctx):
                 exp = f"Conv(({sign},{width}),items[4])"
                 ctx.check(f"mem_store[{sign}{width}] data conversion", ok and d == exp and va == "items[3]", f"MemStore(va=items[3], data={exp})", f"va={va}, data={d}", fn_where(idx, fi))
 
+    # mem_store: data narrower / wider than the access, and a truth value as data
+    for dname, dvt, width in (("narrower data", lambda: vt_case("t4", False, 8), "32"), ("narrower signed data", lambda: vt_case("t4", True, 16), "64"), ("wider data", lambda: vt_case("t4", False, 64), "16"),
+                              ("truth value", lambda: vt_case("t4", False, 1, ("PURE", "BOOL")), "8"), ("same width, other sign", lambda: vt_case("t4", True, 32), "32")):
+        r = Runner(idx, sym_compare=interval_compare())
+        fi, outs = r.run("mem_store", lambda: [Tok("MEM_STORE", "mem_store_"), Tok("SIGN_TYPE", "u"), Tok("BIT_WIDTH", width), r.pure("items[3]"), r.pure("items[4]", vt=dvt())])
+        good = [o for o in outs if o.kind != "raise"]
+        ctx.need(good, f"mem_store[{dname}] has no translating path")
+        for o in good:
+            v = o.value
+            ok = isinstance(v, AObj) and v.cls == "MemStore"
+            d = clean(lab(ctor(v, "data_var"))) if ok else lab(v)
+            ctx.check(f"mem_store_u{width} with {dname}", ok and d == f"Conv((u,{width}),items[4])", f"data = Conv((u,{width}),items[4])", f"data={d}", fn_where(idx, fi))
     # --- jump target: converted to 32 bit unless it is 32 bit wide
     for name, lo, hi, exp in (("W<32", 1, 31, "Conv((u,32),items[1])"), ("W>32", 33, 128, "Conv((u,32),items[1])"), ("W=32", 32, 32, ("items[1]", "Conv((u,32),items[1])"))):
         r = Runner(idx, sym_compare=interval_compare())
@@ -412,10 +443,12 @@ def r03_7(ctx):
 @rule("R03.8", "C03", "destination types of register targets: an assignment keeps the bits of a same-width value only if the register has its architectural width (letter registers, pairs, explicit and alias registers)", min_instances=40)
 def r03_8(ctx):
     from .c07 import r07_1, r07_7, r07_8
+    from .c10 import hybrid_temp_type_checks
 
     r07_1(ctx)
     r07_7(ctx)
     r07_8(ctx)
+    hybrid_temp_type_checks(ctx)  # ... and the temporary of an operation has the operation's type (its readers convert by it)
 
 
 @rule("R03.9", "C03", "operand-kind independence: the conversions a callback inserts do not depend on the class of its operands", min_instances=20)
